@@ -176,3 +176,18 @@ var probeAfterPrune = []emitted{
 		cNewTask("title", "C"), cPlan("P", "x"), cListReady()),
 	hist(cNewTask("title", "A", "state", "done"), cPrune(), cPlan("P", "x", "y"), cSet("i3", "state", "done"), cPrune(), cPlan("Q", "z"), cListReady()),
 }
+
+// the content of an attached file changes while its modification time does not
+// (cp -p, a build that restores timestamps): the next attachment records the new hash
+func cRewrite(path string) Cmd { return Cmd{"name": "rewrite", "mode": "json", "path": path} }
+func cResult(id, sum, path string) Cmd {
+	return cSet(id, "rsum", sum, "rpath", path, "rclean", path)
+}
+
+var probeEvidence = []emitted{
+	hist(cNewTask("title", "A"), cResult("i1", "first", "r1.txt"), cRewrite("r1.txt"), cResult("i1", "second", "r1.txt"), cListReady(), cCompact()),
+	hist(cNewTask("title", "A"), cNewTask("title", "B"), cResult("i1", "one", "r1.txt"), cResult("i2", "other task", "r1.txt"), cRewrite("r1.txt"),
+		cResult("i2", "again", "r1.txt"), cResult("i1", "two", "r2.txt"), cRewrite("r2.txt"), cResult("i1", "three", "r2.txt"), cCompact(), cCompact()),
+	// the same unchanged file attached twice: both attachments stay, also across compaction
+	hist(cNewTask("title", "A"), cResult("i1", "first", "r1.txt"), cResult("i1", "second", "r1.txt"), cCompact(), cListReady(), cCompact()),
+}
